@@ -138,9 +138,9 @@ func sendHTTPResponse(result runtime.Element, err error, w http.ResponseWriter) 
 					respondError(w, fmt.Errorf("HTTP响应之「头部」须为字典，「状态码」须为 100 至 999 之间的数值"))
 					return
 				}
-				// write to response directly
-				for k, v := range headerMap.GetValue() {
-					w.Header().Add(k, v.String())
+				// write to response directly (in the order the headers were set)
+				for _, k := range headerMap.GetKeyOrder() {
+					w.Header().Add(k, headerMap.GetValue()[k].String())
 				}
 				w.WriteHeader(int(statusNum.GetValue()))
 				w.Write([]byte(contentStr))
